@@ -101,6 +101,9 @@ HexahedralMeshTopologyKernel::add_cell(std::vector<HalfFaceHandle> _halffaces, b
     }
     if(check_halfface_ordering(_halffaces)) {
         // The order is okay :)
+        if(!has_hexahedral_structure(_halffaces)) {
+            return TopologyKernel::InvalidCellHandle;
+        }
         return TopologyKernel::add_cell(std::move(_halffaces), _topologyCheck);
     }
 
@@ -154,7 +157,38 @@ HexahedralMeshTopologyKernel::add_cell(std::vector<HalfFaceHandle> _halffaces, b
         return TopologyKernel::InvalidCellHandle;
     }
 
+    if(!has_hexahedral_structure(ordered_halffaces)) {
+        return TopologyKernel::InvalidCellHandle;
+    }
+
     return TopologyKernel::add_cell(std::move(ordered_halffaces), _topologyCheck);
+}
+
+//========================================================================================
+
+bool HexahedralMeshTopologyKernel::has_hexahedral_structure(const std::vector<HalfFaceHandle>& _hfs) const {
+
+    // The ordering test and the base class only look at the neighbours of the
+    // first two halffaces and at the matching of halfedges: six quads can form a
+    // closed surface in that order without being a hexahedron.
+    if(_hfs.size() != 6) return false;
+
+    std::set<VertexHandle> all_vertices;
+    for(size_t axis = 0; axis < 3; ++axis) {
+        std::set<VertexHandle> front;
+        for(const auto &heh: TopologyKernel::halfface(_hfs[2 * axis]).halfedges()) {
+            front.insert(TopologyKernel::from_vertex_handle(heh));
+        }
+        for(const auto &heh: TopologyKernel::halfface(_hfs[2 * axis + 1]).halfedges()) {
+            if(front.count(TopologyKernel::from_vertex_handle(heh)) > 0) {
+                // front and back halfface of one axis share a vertex
+                return false;
+            }
+            all_vertices.insert(TopologyKernel::from_vertex_handle(heh));
+        }
+        all_vertices.insert(front.begin(), front.end());
+    }
+    return all_vertices.size() == 8;
 }
 
 //========================================================================================
